@@ -622,6 +622,8 @@ class Evaluator:
         return SV("int", nl, z3.If(b.val == 0, z3.IntVal(0), self._trunc_div(a.val, b.val)))
 
     def _binary_arith(self, op, e, sc):
+        if isinstance(e.expression, exp.Interval):
+            return self.date_arith(op, e, self.expr(e.this, sc), None, sc)
         a, b = self.expr(e.this, sc), self.expr(e.expression, sc)
         if "date" in (a.kind, b.kind) or isinstance(e.expression, exp.Interval) or isinstance(e.this, exp.Interval):
             return self.date_arith(op, e, a, b, sc)
